@@ -45,7 +45,10 @@ func (fr *Frame) pow2(n string) string {
 				sImp(sApp("<", o, n), sApp("<=", sApp("*", "2", ot), t)),
 				sImp(sApp("<", n, o), sApp("<=", sApp("*", "2", t), ot)),
 				sImp(sEq(sApp("+", o, "1"), n), sEq(sApp("*", "2", ot), t)),
-				sImp(sEq(sApp("+", n, "1"), o), sEq(sApp("*", "2", t), ot))))
+				sImp(sEq(sApp("+", n, "1"), o), sEq(sApp("*", "2", t), ot)),
+				// limbs of 256 bits (hash expansion)
+				sImp(sEq(sApp("+", o, "256"), n), sEq(sApp("*", pow2Const(256), ot), t)),
+				sImp(sEq(sApp("+", n, "256"), o), sEq(sApp("*", pow2Const(256), t), ot))))
 		}
 		fc.pow2Args = append(fc.pow2Args, n)
 	}
@@ -561,8 +564,16 @@ func (fr *Frame) bigMethod(b *ssa.BasicBlock, st *State, m string, args []Val, r
 		// facts about powmod results
 		fc.addFact("true", sImp(sNot(sEq(am, "0")), sAnd(sApp("<=", "0", pm), sApp("<", pm, am), sApp("<=", "0", pinv), sApp("<", pinv, am))))
 		noinv := sAnd(sNot(sEq(am, "0")), sApp("<", y, "0"), sNot(sApp("hasinv", x, am)))
+		// math/big (observed with go1.26.8) does not return the documented value for a negative base with a
+		// negative exponent (Exp(-2,-1,7) = 4, not 3): the model promises nothing but the range in that case
+		quirk := sApp("expquirk", x, y, am)
+		if !fc.declSet["fun:expquirk"] {
+			fc.declSet["fun:expquirk"] = true
+			fc.decls = append(fc.decls, "(declare-fun expquirk (Int Int Int) Int)")
+		}
+		fc.addFact("true", sImp(sNot(sEq(am, "0")), sAnd(sApp("<=", "0", quirk), sApp("<", quirk, am))))
 		val := sIte(sEq(am, "0"), sIte(sApp("<=", y, "0"), "1", sApp("ipow", x, y)),
-			sIte(sApp(">=", y, "0"), pm, pinv))
+			sIte(sApp(">=", y, "0"), pm, sIte(sApp("<", x, "0"), quirk, pinv)))
 		cur := fr.bv(st, z)
 		fr.setBV(st, z, sIte(noinv, sIte(sEq(am, "1"), "0", cur), val))
 		// Go: for |m| == 1 the result is 0 before the inverse is attempted
@@ -664,6 +675,13 @@ func (fr *Frame) bigMethod(b *ssa.BasicBlock, st *State, m string, args []Val, r
 		need()
 		r := sApp("os2ip", fr.bseqOf(st, args[1]))
 		fc.addFact("true", sApp(">=", r, "0"))
+		// an unsigned big-endian number of n bytes is below 2^(8n)
+		ln := sApp("sl_len", fr.scalar(args[1]))
+		if n, ok := fc.knownLen[fr.scalar(args[1])]; ok && n >= 0 && n < 1024 {
+			fc.addFact("true", sApp("<", r, pow2Const(8*n)))
+		} else {
+			fc.addFact("true", sApp("<", r, fr.pow2(sApp("*", "8", ln))))
+		}
 		fr.setBV(st, z, r)
 		return ret()
 	case "String", "Text":
